@@ -1,6 +1,6 @@
 (* C02/Props.v — property theorems only *)
 From Coq Require Import ZArith List Bool.
-From FV Require Import Base.Ser Base.Res Base.BE C02.Model C02.Proofs.
+From FV Require Import Base.Ser Base.Res Base.BE C02.Model C02.Proofs C02.ModelGlyf C02.ProofsGlyf.
 Import ListNotations.
 Open Scope Z_scope.
 
@@ -23,3 +23,15 @@ Theorem loca_short_iff : forall locs fmt data, loca_compile locs = Ok (fmt, data
   (fmt = 0 <-> (forall l, In l locs -> l < 131072 /\ l mod 2 = 0)).
 Proof. exact Proofs.loca_short_iff. Qed.
 Print Assumptions loca_short_iff.
+
+(* simple-glyph point data (glyf): the flag / x / y streams written for any non-empty list of points -- flags restricted to the bits the
+   table keeps, coordinate deltas in int16; zero, short positive/negative and word forms; repeated flags written once, twice or as
+   flag|repeat,count in runs of up to 256 -- read back as the same points, and the bytes that follow are left untouched *)
+Theorem glyf_points_roundtrip : forall ps bytes tail, ps <> [] -> Forall (fun p : pt => keepable (fst p)) ps ->
+  compileDeltasGreedy ps = Ok bytes -> decompileCoordinates (length ps) (bytes ++ tail) = Ok (ps, tail).
+Proof. exact ProofsGlyf.glyf_points_roundtrip. Qed.
+Print Assumptions glyf_points_roundtrip.
+Example glyf_points_example :
+  compileDeltasGreedy [(1, (0, 0)); (1, (5, -7)); (1, (5, -7)); (1, (5, -7)); (0, (300, 0)); (0, (-300, 255))]
+  = Ok [49; 31; 2; 32; 36; 5; 5; 5; 1; 44; 254; 212; 7; 7; 7; 255].
+Proof. vm_compute. reflexivity. Qed.
